@@ -234,7 +234,10 @@ def run_case(cfg):
     if not info["problems"]:
         d = "c2s" if cfg["case"] % 2 == 0 else "s2c"
         who, peer = ("c", "s") if d == "c2s" else ("s", "c")
-        k = 1 + (cfg["case"] * 37) % 300
+        # at most a dozen records in flight (the trace spec's per-step cost grows with the number of pending records)
+        wconn = p.c if who == "c" else p.s
+        rsz = min(wconn.recordSize, int(wconn._send_record_limit), 16384)
+        k = 1 + (cfg["case"] * 37) % min(300, 12 * max(1, rsz))
         data = stream(d, W[d], k)
         tr.emit("W", d=d, n=k)
         o = p.write(who, data)
